@@ -29,12 +29,13 @@ FAMILIES = {
              'handler timeouts that cancel an awaiting handler while it processes other events inline; '
              'non-trivial: some run loop holds a taken event while another process runs (take not immediately followed by its peBegin)'),
     'C03': dict(
-        gens=[('core', dict(tasklen=(2, 7)), 0.7), ('chain', dict(p_timeout=0.2, p_await=0.4, p_parallel=0.2), 0.3)],
-        facets=CORE + ['signal', 'results', 'lineage', 'history', 'recursion', 'lock', 'await'],
+        gens=[('core', dict(tasklen=(2, 7)), 0.65), ('chain', dict(p_timeout=0.2, p_await=0.4, p_parallel=0.2), 0.27),
+              ('stop', dict(p_cancel=0.1), 0.08)],
+        facets=CORE + ['signal', 'results', 'lineage', 'history', 'recursion', 'lock', 'await', 'stop', 'runloop'],
         rule='event trees of depth <= 4 with awaited and fire-and-forget children on any bus, raising handlers, small histories; '
              'non-trivial: an external await returns or hangs for an event that has a child'),
     'C04': dict(
-        gens=[('core', dict(nb=(1, 3), proglen=(1, 6)), 0.4), ('core', dict(nb=(1, 2), proglen=(2, 6), p_timeout=0.5, nh=(2, 7)), 0.15),
+        gens=[('core', dict(nb=(1, 3), proglen=(1, 6)), 0.32), ('core', dict(nb=(2, 3), proglen=(1, 6), p_samenames=1.0), 0.08), ('core', dict(nb=(1, 2), proglen=(2, 6), p_timeout=0.5, nh=(2, 7)), 0.15),
               ('chain', dict(), 0.15), ('chain', dict(p_timeout=1.0, p_await=0.95, min_depth=3, nb=(1, 1), maxh=(50,)), 0.15), ('deep', dict(), 0.08),
               ('parraise', dict(), 0.07)],
         facets=CORE + ['await', 'signal', 'lock', 'results', 'lineage', 'timeout'],
@@ -67,7 +68,7 @@ FAMILIES = {
         rule='forwarding chains/diamonds with slow downstream handlers, external awaits; every state after first completion is an observation point; '
              'non-trivial: an event completes and at least 5 labels follow'),
     'C09': dict(
-        gens=[('core', dict(p_parallel=0.4, p_readbus=0.12, p_parent=0.15, p_forward=0.2), 0.92), ('backlog', dict(), 0.08)],
+        gens=[('core', dict(p_parallel=0.4, p_readbus=0.12, p_parent=0.15, p_forward=0.2), 0.72), ('core', dict(p_parallel=0.3, p_forward=0.15, p_existing=0.05, p_raise=0.0), 0.2), ('backlog', dict(), 0.08)],
         facets=CORE + ['lineage', 'path', 'eventbus', 'dispatch', 'capacity'],
         rule='parallel handlers dispatching at interleaved times, nested awaits, forwarding of roots and children, explicit parents, event_bus reads; '
              'non-trivial: a handler instance dispatches'),
